@@ -421,7 +421,7 @@ def r1_tables_agree(ctx):
     ok_w = wp == ["'fit {}'.format(key)"] or wp == ["f'fit {key}'"]
     rp = [norm(s.value) for s in ast.walk(rloop) if isinstance(s, ast.Assign)
           and norm(s.targets[0]) == "key"]
-    ok_r = rp == ["fkey[4:]"]
+    ok_r = rp in (["fkey[4:]"], ["fkey.removeprefix('fit ')"])
     sel = [norm(n) for n in ast.walk(ld) if isinstance(n, ast.ListComp)
            and "startswith('fit ')" in norm(n)]
     ctx.check(ok_w and ok_r and bool(sel), wloop,
@@ -651,7 +651,17 @@ def r3_refusal(ctx):
         c = a.node
         if isinstance(c, ast.Call) and call_name(c) in ("np.allclose",
                                                         "np.array_equal"):
-            args = {norm(x) for x in c.args[:2]}
+            from ..symres import Resolver as _Res
+            res_ = _Res(W.fn)
+            args = set()
+            for x in c.args[:2]:
+                if isinstance(x, ast.Subscript) and isinstance(
+                        x.value, ast.Name) and x.value.id != "indent":
+                    v_ = res_.reaching_value(x.value)
+                    if v_ is not None:
+                        args.add(f"{norm(v_)}[{norm(x.slice)}]")
+                        continue
+                args.add(norm(x))
             same_cols = args == {"indent['fit']",
                                  f"{W.group_parent}[{W.group_name}]['fit']"}
             ctx.check(same_cols and not a.pol, c,
